@@ -7,7 +7,7 @@
    avoids inf/inf.  Statement only; proof in Proofs/BetaFinalFl.v.                                                        *)
 From Coq Require Import ZArith Bool Reals.
 From Flocq Require Import Core.Core IEEE754.BinarySingleNaN.
-From RD Require Import Proofs.BetaFinalFl Gen.FlProg.
+From RD Require Import Proofs.BetaFinalFl Proofs.TriangularFl Gen.FlProg.
 Open Scope R_scope.
 
 Theorem C03_beta_final_def : forall prec emax (Hp : Prec_gt_0 prec) (Hpe : Prec_lt_emax prec emax) switched (b w : binary_float prec emax),
@@ -40,6 +40,33 @@ Theorem C03_fl_source : forall prec emax (Hp : Prec_gt_0 prec) (Hpe : Prec_lt_em
     match w with B754_infinity false => Bone | _ => src_beta_final_plain prec emax Hp Hpe w b end.
 Proof. intros. split; reflexivity. Qed.
 
+(* ---- Triangular::sample (triangular.rs:101-110) is libm-free: sqrt is a correctly rounded IEEE operation (Flocq Bsqrt).  The whole
+   function body as read off /repo on every run (Gen/FlProg.v: lets, if/else, the draw f opaque) IS triangular_fl. *)
+Theorem C03_triangular_source : forall prec emax (Hp : Prec_gt_0 prec) (Hpe : Prec_lt_emax prec emax) (mn md mx f : binary_float prec emax),
+  src_triangular_sample prec emax Hp Hpe f md mn mx = triangular_fl prec emax Hp Hpe mn md mx f.
+Proof. intros. reflexivity. Qed.
+
+(* For finite min <= mode <= max of magnitude <= 2^k (2k + 3 <= emax: k <= 510 in binary64, k <= 62 in binary32) and EVERY finite draw
+   f in [0, 1]: no overflow, no square root of a negative number - the result is a finite float (never NaN, never infinite), >= min exactly
+   in the first branch, <= max exactly in the second, and of magnitude <= 2^(k+2) in both. *)
+Theorem C03_triangular_fl_finite : forall prec emax (Hp : Prec_gt_0 prec) (Hpe : Prec_lt_emax prec emax) (mn md mx f : binary_float prec emax) (k : Z),
+  (0 <= k)%Z -> (2 * k + 3 <= emax)%Z ->
+  is_finite mn = true -> is_finite md = true -> is_finite mx = true -> is_finite f = true ->
+  B2R mn <= B2R md <= B2R mx -> Rabs (B2R mn) <= bpow radix2 k -> Rabs (B2R mx) <= bpow radix2 k -> 0 <= B2R f <= 1 ->
+  is_finite (triangular_fl prec emax Hp Hpe mn md mx f) = true /\
+  Rabs (B2R (triangular_fl prec emax Hp Hpe mn md mx f)) <= bpow radix2 (k + 2) /\
+  (Bltb (Bmult mode_NE f (Bminus mode_NE mx mn)) (Bminus mode_NE md mn) = true -> B2R mn <= B2R (triangular_fl prec emax Hp Hpe mn md mx f)) /\
+  (Bltb (Bmult mode_NE f (Bminus mode_NE mx mn)) (Bminus mode_NE md mn) = false -> B2R (triangular_fl prec emax Hp Hpe mn md mx f) <= B2R mx).
+Proof. exact triangular_fl_finite. Qed.
+
+Example C03_triangular_binary64 : forall (mn md mx f : binary_float 53 1024),
+  is_finite mn = true -> is_finite md = true -> is_finite mx = true -> is_finite f = true ->
+  B2R mn <= B2R md <= B2R mx -> Rabs (B2R mn) <= bpow radix2 510 -> Rabs (B2R mx) <= bpow radix2 510 -> 0 <= B2R f <= 1 ->
+  is_finite (triangular_fl 53 1024 eq_refl eq_refl mn md mx f) = true.
+Proof. intros mn md mx f A B C D E F G H. apply (C03_triangular_fl_finite 53 1024 eq_refl eq_refl mn md mx f 510); try assumption; discriminate. Qed.
+
 Print Assumptions C03_beta_final_def.
 Print Assumptions C03_beta_final_in_unit.
 Print Assumptions C03_fl_source.
+Print Assumptions C03_triangular_source.
+Print Assumptions C03_triangular_fl_finite.
